@@ -741,6 +741,16 @@ func (b *Builder) allowLeader(peer *metapb.Peer, ignoreClusterLimit bool) bool {
 	return false
 }
 
+// allowLeaderAfter is allowLeader for a transfer that happens after the leader has been moved
+// to the store `leader`: only that store keeps the leader without a transfer, every other store,
+// including the one the leader started on, is a transfer target and has to be checked as such.
+func (b *Builder) allowLeaderAfter(leader uint64, peer *metapb.Peer) bool {
+	origin := b.currentLeaderStoreID
+	b.currentLeaderStoreID = leader
+	defer func() { b.currentLeaderStoreID = origin }()
+	return b.allowLeader(peer, false)
+}
+
 // stepPlan is exec step. It can be:
 // 1. promote learner + demote voter.
 // 2. add voter + remove voter.
@@ -854,7 +864,7 @@ func (b *Builder) planReplaceLeaders(best, next stepPlan) stepPlan {
 		for _, leaderBeforeRemove := range b.currentPeers.IDs() {
 			if leaderBeforeRemove != next.demote.GetStoreId() &&
 				leaderBeforeRemove != next.remove.GetStoreId() &&
-				b.allowLeader(b.currentPeers[leaderBeforeRemove], false) {
+				b.allowLeaderAfter(leaderBeforeAdd, b.currentPeers[leaderBeforeRemove]) {
 				// leaderBeforeRemove does not select nodes to be demote or removed.
 				next.leaderBeforeRemove = leaderBeforeRemove
 				best = b.comparePlan(best, next)
